@@ -50,6 +50,7 @@ func cmdVerify(args []string) {
 	timeout := fs.Int("t", 10, "solver timeout (s)")
 	verbose := fs.Bool("v", false, "print every obligation instance")
 	dump := fs.String("dump", "", "write queries of failing obligations to this directory")
+	whyDead := fs.Bool("why-dead", false, "for every infeasible path: print the first assumption that makes its path condition unsatisfiable")
 	trusted := fs.String("trusted", "/verif/govc/trusted", "trusted spec dir")
 	fs.Parse(args)
 	t0 := time.Now()
@@ -117,12 +118,53 @@ func cmdVerify(args []string) {
 				fmt.Printf("  %-11s %s (%d inst, %.2fs, %s) %s\n", a.Status, n, a.N, a.Secs, a.Solver, a.Detail)
 			}
 		}
-		fmt.Printf("%-60s paths=%d obligations=%d discharged=%d\n", shortFn(res.Key), res.Paths, len(names), ok)
+		dead := 0
+		for _, o := range res.Obligs {
+			if o.Kind == "reach" && o.Status == "infeasible" {
+				dead++
+			}
+		}
+		deadNote := ""
+		if dead > 0 {
+			deadNote = fmt.Sprintf(" INFEASIBLE-PATHS=%d", dead)
+		}
+		fmt.Printf("%-60s paths=%d obligations=%d discharged=%d%s\n", shortFn(res.Key), res.Paths, len(names), ok, deadNote)
+	}
+	if *whyDead {
+		seen := map[string]bool{}
+		for _, o := range all {
+			if o.Kind != "reach" || o.Status != "infeasible" {
+				continue
+			}
+			lo, hi := 0, len(o.PC)
+			for lo < hi {
+				mid := (lo + hi) / 2
+				q := (&Oblig{PC: o.PC[:mid], Goal: False}).buildQuery(false)
+				if oneShot(q, 5) == "unsat" {
+					hi = mid
+				} else {
+					lo = mid + 1
+				}
+			}
+			culprit := "(whole path condition)"
+			if lo >= 1 && lo <= len(o.PC) {
+				culprit = o.PC[lo-1].S
+			}
+			if len(culprit) > 300 {
+				culprit = culprit[:300] + "…"
+			}
+			key := o.Name + "|" + culprit
+			if seen[key] {
+				continue
+			}
+			seen[key] = true
+			fmt.Printf("DEAD %s trail=%s\n     first contradicting assumption (#%d of %d): %s\n", o.Name, o.Trail, lo, len(o.PC), culprit)
+		}
 	}
 	if *dump != "" {
 		os.MkdirAll(*dump, 0o755)
 		for i, o := range all {
-			if o.Status != "discharged" {
+			if o.Status != "discharged" || (os.Getenv("GOVC_DUMP_RE") != "" && regexp.MustCompile(os.Getenv("GOVC_DUMP_RE")).MatchString(o.Name)) {
 				os.WriteFile(fmt.Sprintf("%s/%03d-%s.smt2", *dump, i, sanitize(o.Name)), []byte("; "+o.Name+" "+o.Status+" "+o.Pos+" "+o.Trail+"\n"+o.Query), 0o644)
 			}
 		}
